@@ -53,33 +53,37 @@ static void make_buf(int id, uint8_t* b, size_t n) {
 	}
 }
 
-// composite functions for one (seed, size, buffer image); "" if all agree
-static std::string composite_case(int seed_id, size_t size, int buf_id) {
-	std::vector<uint8_t> so(size), ho(size), mo(size);
+// Buffers with an explicitly chosen placement: 4096-aligned base + off (off in {0, 64}), so that the 64-byte-aligned and the
+// 128-byte-aligned situation are both enumerated instead of being left to the allocator (the library only promises 64).
+struct ABuf { uint8_t* raw; uint8_t* p; size_t n; ABuf(size_t n_, size_t off) : n(n_) { if (posix_memalign((void**)&raw, 4096, n_ + 4096)) { perror("posix_memalign"); exit(2); } p = raw + off; } ~ABuf() { free(raw); } uint8_t* data() { return p; } bool eq(const std::vector<uint8_t>& v) const { return v.size() == n && !memcmp(p, v.data(), n); } };
+
+// composite functions for one (seed, size, buffer image, placement); "" if all agree
+static std::string composite_case(int seed_id, size_t size, int buf_id, size_t off = 0) {
+	ABuf so(size, off), ho(size, off); std::vector<uint8_t> mo(size);
 	alignas(16) uint8_t s1[64], s2[64], s3[64];
 	make_seed(seed_id, s1); memcpy(s2, s1, 64); memcpy(s3, s1, 64);
 	fillAes1Rx4<true>(s1, size, so.data()); fillAes1Rx4<false>(s2, size, ho.data()); spec::fill_aes_1rx4(s3, size, mo.data());
-	if (so != mo) return "fillAes1Rx4<soft> output differs from AesGenerator1R";
-	if (ho != mo) return "fillAes1Rx4<hard> output differs from AesGenerator1R";
+	if (!so.eq(mo)) return "fillAes1Rx4<soft> output differs from AesGenerator1R";
+	if (!ho.eq(mo)) return "fillAes1Rx4<hard> output differs from AesGenerator1R";
 	if (memcmp(s1, s3, 64) || memcmp(s2, s3, 64)) return "fillAes1Rx4 final state differs from AesGenerator1R";
 	make_seed(seed_id, s1); memcpy(s2, s1, 64); memcpy(s3, s1, 64);
 	fillAes4Rx4<true>(s1, size, so.data()); fillAes4Rx4<false>(s2, size, ho.data()); spec::fill_aes_4rx4(s3, size, mo.data());
-	if (so != mo) return "fillAes4Rx4<soft> output differs from AesGenerator4R";
-	if (ho != mo) return "fillAes4Rx4<hard> output differs from AesGenerator4R";
+	if (!so.eq(mo)) return "fillAes4Rx4<soft> output differs from AesGenerator4R";
+	if (!ho.eq(mo)) return "fillAes4Rx4<hard> output differs from AesGenerator4R";
 	// fingerprint
-	std::vector<uint8_t> buf(size); make_buf(buf_id, buf.data(), size);
+	ABuf buf(size, off); make_buf(buf_id, buf.data(), size);
 	alignas(16) uint8_t h1[64], h2[64], h3[64];
 	hashAes1Rx4<true>(buf.data(), size, h1); hashAes1Rx4<false>(buf.data(), size, h2); spec::hash_aes_1rx4(buf.data(), size, h3);
 	if (memcmp(h1, h3, 64)) return "hashAes1Rx4<soft> differs from AesHash1R";
 	if (memcmp(h2, h3, 64)) return "hashAes1Rx4<hard> differs from AesHash1R";
 	// combined step == fingerprint followed by refill
 	for (int hard = 0; hard < 2; ++hard) {
-		std::vector<uint8_t> b2 = buf; alignas(16) uint8_t hh[64], fs[64], ms[64];
+		ABuf b2(size, off); memcpy(b2.data(), buf.data(), size); alignas(16) uint8_t hh[64], fs[64], ms[64];
 		make_seed(seed_id, fs); memcpy(ms, fs, 64);
 		if (hard) hashAndFillAes1Rx4<false>(b2.data(), size, hh, fs); else hashAndFillAes1Rx4<true>(b2.data(), size, hh, fs);
 		spec::fill_aes_1rx4(ms, size, mo.data());
 		if (memcmp(hh, h3, 64)) return std::string("hashAndFillAes1Rx4<") + (hard ? "hard" : "soft") + "> fingerprint differs from AesHash1R of the old content";
-		if (b2 != mo) return std::string("hashAndFillAes1Rx4<") + (hard ? "hard" : "soft") + "> refill differs from AesGenerator1R";
+		if (!b2.eq(mo)) return std::string("hashAndFillAes1Rx4<") + (hard ? "hard" : "soft") + "> refill differs from AesGenerator1R";
 		if (memcmp(fs, ms, 64)) return std::string("hashAndFillAes1Rx4<") + (hard ? "hard" : "soft") + "> final generator state differs";
 	}
 	return "";
@@ -91,7 +95,7 @@ int main(int argc, char** argv) {
 	if (!args.replay.empty()) {
 		vf::Json r = vf::Json::load(args.replay); std::string d;
 		if (r.at("kind").s == "round") { auto s = vf::unhex(r.at("state").s), k = vf::unhex(r.at("rkey").s); d = round_case(s.data(), k.data()); }
-		else if (r.at("kind").s == "composite") d = composite_case((int)r.at("seed").num(), (size_t)r.at("size").num(), (int)r.at("buf").num());
+		else if (r.at("kind").s == "composite") d = composite_case((int)r.at("seed").num(), (size_t)r.at("size").num(), (int)r.at("buf").num(), r.has("off") ? (size_t)r.at("off").num() : 0);
 		else d = table_check(nullptr);
 		printf("replay: %s\n", d.empty() ? "agrees" : d.c_str()); return d.empty() ? 0 : 1;
 	}
@@ -132,13 +136,17 @@ int main(int argc, char** argv) {
 			bool generic = seed < 2 || seed >= 2 + 512;
 			for (size_t si = 0; si < sizes.size(); ++si) {
 				if (!generic && !th && (si % 8) != (size_t)(seed % 8) && sizes[si] != 64 && sizes[si] != 4096 && sizes[si] != 4160) continue;   // quick: one-hot seeds take a rotating eighth of the sizes
-				std::string d = composite_case(seed, sizes[si], seed + (int)si); R.n["composite_cases"]++; R.n["composite_bytes"] += sizes[si];
-				if (!d.empty()) { viol("c12:composite", d + " (seed " + std::to_string(seed) + ", size " + std::to_string(sizes[si]) + ")", vf::Json::obj().set("kind", "composite").set("seed", seed).set("size", (unsigned long long)sizes[si]).set("buf", seed + (int)si)); if (R.viol.size() >= 3) return R; }
+				for (size_t off : { (size_t)0, (size_t)64 }) {
+				std::string d = composite_case(seed, sizes[si], seed + (int)si, off); R.n["composite_cases"]++; R.n["composite_bytes"] += sizes[si];
+				if (!d.empty()) { viol("c12:composite", d + " (seed " + std::to_string(seed) + ", size " + std::to_string(sizes[si]) + ", buffer at 4096k+" + std::to_string(off) + ")", vf::Json::obj().set("kind", "composite").set("seed", seed).set("size", (unsigned long long)sizes[si]).set("buf", seed + (int)si).set("off", (unsigned long long)off)); if (R.viol.size() >= 3) return R; }
+				}
 			}
 			if (generic) for (size_t sz : big) {
 				if (!th && sz > 262144 && seed != 2 + 512) continue;
-				std::string d = composite_case(seed, sz, seed); R.n["composite_cases"]++; R.n["composite_bytes"] += sz;
-				if (!d.empty()) viol("c12:composite", d + " (seed " + std::to_string(seed) + ", size " + std::to_string(sz) + ")", vf::Json::obj().set("kind", "composite").set("seed", seed).set("size", (unsigned long long)sz).set("buf", seed));
+				for (size_t off : { (size_t)0, (size_t)64 }) {
+				std::string d = composite_case(seed, sz, seed, off); R.n["composite_cases"]++; R.n["composite_bytes"] += sz;
+				if (!d.empty()) viol("c12:composite", d + " (seed " + std::to_string(seed) + ", size " + std::to_string(sz) + ", buffer at 4096k+" + std::to_string(off) + ")", vf::Json::obj().set("kind", "composite").set("seed", seed).set("size", (unsigned long long)sz).set("buf", seed).set("off", (unsigned long long)off));
+				}
 			}
 		}
 		if (cs == 0) R.sample(vf::Json::obj().set("kind", "composite").set("seed", 0).set("size", 64).set("buf", 0));
@@ -147,7 +155,7 @@ int main(int argc, char** argv) {
 	vf::Evidence ev; ev.level = "exploration";
 	ev.coverage.set("evaluations", (unsigned long long)(total.n["round_cases"] + total.n["composite_cases"] + total.n["table_entries"]))
 		.set("distinct_nontrivial", (unsigned long long)(total.n["round_cases"] + total.n["composite_cases"])).set("exhaustive", !total.incomplete)
-		.set("rule", "single rounds: every 16-byte state with at most two non-zero bytes (all 120 position pairs x 255^2 values, all 16x255 single bytes, zero) with key 0, single-byte states with 19 keys: soft_aesenc/dec == _mm_aesenc/dec == aesenc<>/aesdec<> dispatch == FIPS-197 round computed from the GF(2^8) definition; all 2x4x256 T-table entries; composites: fillAes1Rx4, fillAes4Rx4, hashAes1Rx4, hashAndFillAes1Rx4 in both template instantiations == model, seeds {0, FF.., 512 one-hot, 3 generic} x sizes {64..4096 step 64, 4160, 8192, 65536, 256 KiB, 2 MiB (generic seeds)} x 5 buffer images; combined step == (fingerprint of old content, refill, generator state)");
+		.set("rule", "single rounds: every 16-byte state with at most two non-zero bytes (all 120 position pairs x 255^2 values, all 16x255 single bytes, zero) with key 0, single-byte states with 19 keys: soft_aesenc/dec == _mm_aesenc/dec == aesenc<>/aesdec<> dispatch == FIPS-197 round computed from the GF(2^8) definition; all 2x4x256 T-table entries; composites: fillAes1Rx4, fillAes4Rx4, hashAes1Rx4, hashAndFillAes1Rx4 in both template instantiations == model, seeds {0, FF.., 512 one-hot, 3 generic} x sizes {64..4096 step 64, 4160, 8192, 65536, 256 KiB, 2 MiB (generic seeds)} x 5 buffer images x 2 buffer placements (128-byte aligned and 64 mod 128); combined step == (fingerprint of old content, refill, generator state)");
 	ev.assumptions = { "the model's AES round is built from the FIPS-197 definitions (S-box from field inverse + affine map) and was checked against FIPS-197 appendix B at setup" };
 	return vf::finish(args, total, ev);
 }
